@@ -19,7 +19,8 @@ Transcription conventions
  * the model follows the repaired code (fix commits in findings/C13.json): the division by the
    first scale factor is guarded like all the others; the low-memory class flushes its buffer of
    log-scales when it is full *before* writing the next one; `NumTools::logsum` of equal arguments;
-   the derivative cache names are forgotten by `fireParameterChanged` / `setBreakPoints`; the second
+   the derivative cache names are forgotten by `fireParameterChanged` / `setBreakPoints`; `setBreakPoints`
+   refuses a vector that is not strictly increasing within `1 … nbSites-1`; the second
    derivative resets `d2Scales_` / `d2LogLik_`; the auto-correlation matrix holds its stationary vector.
 
 Contents: break-point control flow · forward recursions of the three classes · backward recursions
@@ -84,6 +85,16 @@ def bwdFlags : Nat → List Nat → List Bool
   | i + 1, rbps =>
     if nextBrkR rbps < i + 1 then false :: bwdFlags i rbps
     else true :: bwdFlags i rbps.tail
+
+/-- `AbstractHmmLikelihood::checkBreakPoints_` (HmmLikelihood.cpp:57-66): every entry is a position in
+`1 … nbSites-1` and larger than the one before; `false` = it throws -/
+def breaksOkFrom (nbSites : Nat) : Option Nat → List Nat → Bool
+  | _, [] => true
+  | prev, b :: bs =>
+    !(b == 0 || decide (nbSites ≤ b)) && (match prev with | some q => decide (q < b) | none => true)
+      && breaksOkFrom nbSites (some b) bs
+
+def breaksOk (nbSites : Nat) (bps : List Nat) : Bool := breaksOkFrom nbSites none bps
 
 /-- the sites 1 … T-1 tagged with the forward reset flags -/
 def mkSites (es : List (Emis α)) (bps : List Nat) : List (Site α) :=
@@ -561,6 +572,9 @@ structure Tables (α : Type) where
   /-- `getD2EmissionProbabilities` after `computeD2EmissionProbabilities(variable)` -/
   d2E : String → Emis α × List (Emis α)
 
+/-- `nbSites_` -/
+def Tables.T (t : Tables α) : Nat := t.es.length + 1
+
 /-- answers; `exc` = an exception reaches the caller -/
 inductive Ans (α : Type) where
   | exc
@@ -669,7 +683,8 @@ def RescObj.step (o : RescObj α) : Op α → RescObj α × Ans α
     | none => (o1, .exc)
     | some fw => ({ o1 with fw := fw, backUpToDate := false }, .val fw.logLik)
   | .setBreaks bps =>
-    -- setBreakPoints (RescaledHmmLikelihood.h:176)
+    -- setBreakPoints (RescaledHmmLikelihood.h:176): an invalid vector is refused before anything is changed
+    if !(breaksOk o.tab.T bps) then (o, .exc) else
     let o1 := { o with bps := bps, dVar := "", d2Var := "" }
     match rescCompute o.tab bps with
     | none => (o1, .exc)
@@ -841,6 +856,7 @@ def LogObj.step [HasIsInf α] (o : LogObj α) : Op α → LogObj α × Ans α
     ({ o with tab := t, backUpToDate := false, fw := fw, dVar := "", d2Var := "" }, .val fw.ll)
   | .setBreaks bps =>
     -- setBreakPoints (LogsumHmmLikelihood.h:176)
+    if !(breaksOk o.tab.T bps) then (o, .exc) else
     let fw := logCompute o.tab bps
     ({ o with bps := bps, fw := fw, backUpToDate := false, dVar := "", d2Var := "" }, .val fw.ll)
   | .logLik => (o, .val o.fw.ll)
@@ -947,7 +963,9 @@ def LowObj.build (t : Tables α) (maxSize : Nat) : Option (LowObj α) :=
 
 def LowObj.step (o : LowObj α) : Op α → LowObj α × Ans α
   | .setTables t => let ll := lowCompute t o.maxSize o.bps; ({ o with tab := t, logLik := ll }, .val ll)
-  | .setBreaks bps => let ll := lowCompute o.tab o.maxSize bps; ({ o with bps := bps, logLik := ll }, .val ll)
+  | .setBreaks bps =>
+    if !(breaksOk o.tab.T bps) then (o, .exc) else
+    let ll := lowCompute o.tab o.maxSize bps; ({ o with bps := bps, logLik := ll }, .val ll)
   | .logLik => (o, .val o.logLik)
   | .posterior | .posteriorInto _ _ | .posteriorSite _ | .siteLik _ | .siteLiks => (o, .exc)   -- NotImplementedException
   | .d1 var =>
@@ -966,10 +984,11 @@ def lowSpec (t : Tables α) (maxSize : Nat) (bps : List Nat) : Op α → Ans α
 /-! ## AutoCorrelationTransitionMatrix (AutoCorrelationTransitionMatrix.cpp), as repaired
 (the equilibrium vector is the stationary distribution, proportional to 1/(1-λ_i)) -/
 
-/-- `Pij(i, j)` (AutoCorrelationTransitionMatrix.h) and the entries written by `getPij()`, from
-`li = vAutocorrel_[i]` -/
+/-- `Pij(i, j)` (AutoCorrelationTransitionMatrix.h:48-54) and the entries written by `getPij()` (which calls
+it), from `li = vAutocorrel_[i]`; as repaired: a single state stays in place with probability 1 -/
 def autoEntry (n : Nat) (li : α) (i j : Nat) : α :=
-  if i == j then li else (one - li) / ofInt ((n : Int) - 1)
+  if n == 1 then one
+  else if i == j then li else (one - li) / ofInt ((n : Int) - 1)
 
 /-- the loop of `fireParameterChanged`: `eqFreq_[i] = 1/(1-λ_i); sum += eqFreq_[i]`, then `eqFreq_[i] /= sum` -/
 def autoEq (lam : List α) : List α :=
